@@ -642,3 +642,95 @@ impl<C: Col> Recorder for NativeTarget<C> {
     }
     const NATIVE: bool = true;
 }
+
+/// Bounded target boxes derived from an expected pixel map: the tight box (every edge of the target
+/// is a painted edge), boxes that cut k columns/rows at the right/bottom resp. left/top, a box whose
+/// upper half is cut away, and the same tight box at a non-zero origin is implied (the map's own
+/// coordinates are arbitrary). `None` for an empty map.
+pub fn cut_boxes(want: &PixMap) -> Option<[Rectangle; 5]> {
+    if want.is_empty() {
+        return None;
+    }
+    let (mut x0, mut y0, mut x1, mut y1) = (i32::MAX, i32::MAX, i32::MIN, i32::MIN);
+    for &(x, y) in want.px.keys() {
+        x0 = x0.min(x);
+        y0 = y0.min(y);
+        x1 = x1.max(x);
+        y1 = y1.max(y);
+    }
+    let (w, h) = ((x1 - x0 + 1) as u32, (y1 - y0 + 1) as u32);
+    let k = (want.hash() % 3) as i32 + 1;
+    Some([
+        rect(x0, y0, w, h),
+        rect(x0 - k, y0 - k, w, h),
+        rect(x0 + k, y0 + k, w, h),
+        rect(x0 - 2, y0 + (h as i32) / 2, w + 4, h),
+        // only the first column and the first row of the painted region remain on the target
+        rect(x0 - (w as i32) + 1, y0 - (h as i32) + 1, w, h),
+    ])
+}
+
+/// the part of `want` that lies inside `bx`
+pub fn restrict(want: &PixMap, bx: &Rectangle) -> PixMap {
+    let mut m = PixMap::new();
+    for (&(x, y), &c) in &want.px {
+        if x >= bx.top_left.x && y >= bx.top_left.y && (x as i64) < bx.top_left.x as i64 + bx.size.width as i64 && (y as i64) < bx.top_left.y as i64 + bx.size.height as i64 {
+            m.set(x, y, c);
+        }
+    }
+    m
+}
+
+/// Consuming an iterator in other ways than `next()` must describe the same sequence: after `k`
+/// calls of `next()` the remaining items seen through `count`, `last`, `fold`, `for_each`, `nth` and
+/// `size_hint` are exactly `reference[k..]` (specialised `fold`/`last`/`count`/`nth` implementations
+/// and their interaction with a partly consumed state). Returns a description of the first
+/// disagreement.
+pub fn consumer_disagreement<I>(make: &dyn Fn() -> I, reference: &[I::Item], ks: &[usize]) -> Option<String>
+where
+    I: Iterator,
+    I::Item: PartialEq + Clone + core::fmt::Debug,
+{
+    let n = reference.len();
+    for &k in ks {
+        let k = k.min(n + 1);
+        // a fresh iterator advanced by k x next() for every consumer (the iterator need not be Clone)
+        let at_k = || {
+            let mut it = make();
+            for _ in 0..k {
+                it.next();
+            }
+            it
+        };
+        let rest: &[I::Item] = if k <= n { &reference[k..] } else { &[] };
+        let (lo, hi) = at_k().size_hint();
+        if lo > rest.len() || hi.map_or(false, |h| h < rest.len()) {
+            return Some(format!("after {} x next(): size_hint() = ({}, {:?}) does not bracket the {} remaining items", k, lo, hi, rest.len()));
+        }
+        let c = at_k().count();
+        if c != rest.len() {
+            return Some(format!("after {} x next(): count() = {}, {} items remain", k, c, rest.len()));
+        }
+        let l = at_k().last();
+        if l.as_ref() != rest.last() {
+            return Some(format!("after {} x next(): last() = {:?}, expected {:?}", k, l, rest.last()));
+        }
+        let mut folded: Vec<I::Item> = Vec::with_capacity(rest.len());
+        at_k().for_each(|x| folded.push(x));
+        if folded != rest {
+            let at = folded.iter().zip(rest.iter()).position(|(a, b)| a != b).unwrap_or(folded.len().min(rest.len()));
+            return Some(format!("after {} x next(): for_each()/fold() yields {} items, expected {}; first difference at remaining position {}: {:?} vs {:?}", k, folded.len(), rest.len(), at, folded.get(at), rest.get(at)));
+        }
+        for j in [0usize, 1, rest.len().saturating_sub(1), rest.len()] {
+            let got = at_k().nth(j);
+            if got.as_ref() != rest.get(j) {
+                return Some(format!("after {} x next(): nth({}) = {:?}, expected {:?}", k, j, got, rest.get(j)));
+            }
+        }
+        let sk: Vec<I::Item> = at_k().skip(1).collect();
+        if sk != rest.get(1..).unwrap_or(&[]) {
+            return Some(format!("after {} x next(): skip(1) yields {} items, expected {}", k, sk.len(), rest.len().saturating_sub(1)));
+        }
+    }
+    None
+}
